@@ -1,12 +1,16 @@
 (* C16 -- HTML report: faithful source, each match once, content cannot break
    the markup.  Only statements; proofs in proofs/HtmlProofs.v.
    Model: coq/model/Html.v (byte-exact model of genhtml.py).
-   Proved here: the escaping layer and the line splitting.  The region
-   grouping / overlap list / line numbering of generate_html are part of the
-   executable model and are decided by the byte-exact correspondence run and
-   the HTML-parsing oracle (see DESIGN.md), not yet by a theorem. *)
-From Coq Require Import String.
-From YV Require Import PyBase Html HtmlProofs.
+   Proved here: the escaping layer, the line splitting, and one region of
+   the report: its body is a gap-free, overlap-free tiling of the source
+   stretch it covers, every match is highlighted exactly once (in place or
+   in the overlap list), a highlight is its escaped source span wrapped line
+   by line.  The grouping of matches into regions, the context lines around
+   them and the line numbering of generate_html are part of the executable
+   model and are decided by the byte-exact correspondence run and the
+   HTML-parsing oracle (see DESIGN.md), not yet by a theorem. *)
+From Coq Require Import String Sorting.Permutation.
+From YV Require Import PyBase ShellMap Html HtmlProofs HtmlRegion.
 
 (* (1) protect_html is a character-wise map (the seven substitutions do not
    interfere), hence a homomorphism *)
@@ -41,6 +45,49 @@ Theorem C16_highlight_keeps_text : forall st stu m s lin unsure,
 Proof. exact highlight_keeps_text. Qed.
 Print Assumptions C16_split_lines.
 Print Assumptions C16_highlight_keeps_text.
+
+(* (5) one region: the body renders a tiling, the overlap list the rest *)
+Theorem C16_region_body : forall st stu tex hs last,
+  region_body st stu tex hs last =
+  (flat_map (render st stu tex) (tiles hs last),
+   map (fun h => (hl st stu tex h, (h_lin h + 1)%Z)) (overl hs last)).
+Proof. exact region_body_tiles. Qed.
+Print Assumptions C16_region_body.
+
+(* (6) every match of the region exactly once: highlighted in place or
+   listed as overlapping *)
+Theorem C16_each_match_once : forall hs last,
+  Permutation hs (highs (tiles hs last) ++ overl hs last).
+Proof. exact each_match_once. Qed.
+Print Assumptions C16_each_match_once.
+
+(* (7) the pieces tile the source stretch of the region, in order, and so
+   the text content of the body is the escaped source stretch *)
+Theorem C16_region_source : forall tex hs last,
+  (0 <= last)%Z -> Forall (fun h => (h_beg h <= h_end h)%Z) hs ->
+  flat_map (span tex) (tiles hs last) = zslice tex last (region_last hs last)
+  /\ (last <= region_last hs last)%Z.
+Proof. exact tiles_source. Qed.
+Theorem C16_region_text : forall tex hs last,
+  (0 <= last)%Z -> Forall (fun h => (h_beg h <= h_end h)%Z) hs ->
+  flat_map (fun p => protect_html (span tex p)) (tiles hs last)
+  = protect_html (zslice tex last (region_last hs last)).
+Proof. exact region_text. Qed.
+Print Assumptions C16_region_text.
+
+(* (8) the highlighted text is the source span the match maps to, and the
+   span is never empty or reversed *)
+Theorem C16_highlight_is_span : forall st stu tex h,
+  exists pre post,
+    render st stu tex (PHigh h) =
+      join_br (fun l => pre ++ l ++ post) (split_br (protect_html (span tex (PHigh h)))) /\
+    join_br (fun l => l) (split_br (protect_html (span tex (PHigh h))))
+      = protect_html (span tex (PHigh h)).
+Proof. exact highlight_is_wrapped_span. Qed.
+Theorem C16_span_order : forall is_alpha is_word tex cm m h,
+  make_hdata is_alpha is_word tex cm m = Ok h -> (h_beg h < h_end h)%Z.
+Proof. exact make_hdata_order. Qed.
+Print Assumptions C16_span_order.
 
 (* non-vacuity *)
 Example C16_example :
